@@ -293,10 +293,26 @@ func runJournal(t *sim.T, which string) *sim.Violation {
 	t.SimTime = float64(w.Now - gen.Epoch)
 	t.Logf("world: %d routes, %d trips, adversarial=%v, nyct=%v, %s; published %d feeds, delivered %d", cfg.Routes, cfg.Trips, cfg.Adversarial, cfg.Nyct, spec, len(published), len(delivered))
 
+	// Per-feed options: usually one options value per history; sometimes every feed is parsed with its own
+	// freshly loaded *time.Location for the same zone (as a program that loads the zone per file would do):
+	// equal instants then carry different Location pointers.
+	freshLoc := spec.TZ == 2 && t.Chance(1, 3)
+	optsFor := func() *gtfs.ParseRealtimeOptions {
+		o := spec.Fresh()
+		if freshLoc {
+			if l, err := time.LoadLocation("America/New_York"); err == nil {
+				o.Timezone = l
+			}
+		}
+		return o
+	}
+	if freshLoc {
+		t.Probe("fresh-location-object-per-feed")
+	}
 	// the model's view: each delivered feed parsed once
 	var feeds []*gtfs.Realtime
 	for _, b := range delivered {
-		r, err, pv, _ := parseRT(append([]byte(nil), b...), spec.Fresh())
+		r, err, pv, _ := parseRT(append([]byte(nil), b...), optsFor())
 		if pv != nil || err != nil {
 			// a parser problem: not this property's business
 			t.Probe("parse-failed-skip-run")
@@ -325,7 +341,7 @@ func runJournal(t *sim.T, which string) *sim.Violation {
 	var reuse []*gtfs.Realtime
 	if long {
 		for _, raw := range delivered {
-			r, err, pv, _ := parseRT(append([]byte(nil), raw...), spec.Fresh())
+			r, err, pv, _ := parseRT(append([]byte(nil), raw...), optsFor())
 			if pv != nil || err != nil {
 				return nil
 			}
@@ -347,7 +363,7 @@ func runJournal(t *sim.T, which string) *sim.Violation {
 			return j, nil
 		}
 		for _, raw := range delivered[:k] {
-			r, err, pv, _ := parseRT(append([]byte(nil), raw...), spec.Fresh())
+			r, err, pv, _ := parseRT(append([]byte(nil), raw...), optsFor())
 			if pv != nil || err != nil {
 				return nil, &sim.Violation{Class: "harness", Signature: which + ":harness-reparse", Detail: "re-parse of a delivered feed failed"}
 			}
@@ -544,7 +560,23 @@ func runJournal(t *sim.T, which string) *sim.Violation {
 		if len(instants) > 0 {
 			pick := func() int64 { return instants[t.Choose(len(instants))] }
 			var a, b time.Time
-			switch t.Choose(6) {
+			switch t.Choose(8) {
+			case 6: // lower bound half a second after a trip's start instant: that trip is outside
+				s := pick()
+				a, b = time.Unix(s, 500_000_000), allEnd
+				t.Probe("window-boundary-hit")
+				t.Probe("window-subsecond-bound")
+				interesting = true
+			case 7: // upper bound half a second before / after a start instant
+				s := pick()
+				if t.Chance(1, 2) {
+					a, b = allStart, time.Unix(s-1, 999_999_999)
+				} else {
+					a, b = allStart, time.Unix(s, 1)
+				}
+				t.Probe("window-boundary-hit")
+				t.Probe("window-subsecond-bound")
+				interesting = true
 			case 0:
 				a, b = allStart, allEnd
 			case 1: // exactly a trip's start instant at the lower end
@@ -584,7 +616,11 @@ func runJournal(t *sim.T, which string) *sim.Violation {
 					return &sim.Violation{Class: "order", Signature: "C15:uid-order", Detail: fmt.Sprintf("window run: TripUID %q not after %q", tr.TripUID, j.Trips[i-1].TripUID)}
 				}
 			}
-			win := func(key jKey) bool { return !(key.start < a.Unix()) && !(b.Unix() < key.start) }
+			// closed window on instants (start instants are whole seconds; the bounds need not be)
+			win := func(key jKey) bool {
+				st := time.Unix(key.start, 0)
+				return !st.Before(a) && !b.Before(st)
+			}
 			for _, key := range keyOrder {
 				s := state[key]
 				exp := s.assigned && win(key)
